@@ -28,12 +28,20 @@ def main(argv=None) -> int:
     except ModuleNotFoundError:
         print("ANALYSIS-ERROR property=%s no rule module" % pid)
         return 2
+    chk = None
+    prog = None
     try:
         prog = Program(a.repo)
         chk = Check(pid, a.tier, getattr(mod, "LEVEL", "other"))
         mod.run(prog, chk, a.tier)
         return chk.finish(prog)
     except AnalysisError as e:
+        if chk is not None and any(o.status == "violation" for o in chk.obls):
+            # a rule that ran before the analysis stopped found a violation: that finding stands; the rest of the property is undecided
+            chk.undecided.append("%s: %s (rules after this point were not evaluated)" % (type(e).__name__, e))
+            rc = chk.finish(prog)
+            if rc == 1:
+                return 1
         print("ANALYSIS-ERROR property=%s %s: %s" % (pid, type(e).__name__, e))
         return 2
     except RecursionError:
